@@ -19,12 +19,21 @@ structure TreeState (K : Type) where
   seqCtr : Nat                           -- `config.seqno` (next value handed out)
   visible : Nat                          -- `config.visible_seqno`
   levelCount : Nat := 7
+  blobTh : Option Nat := none            -- `KvSeparationOptions::separation_threshold` of a key-value-separated tree
 deriving Repr
 
 /-- `TreeInner::create_new` -/
-def TreeState.init (levelCount : Nat := 7) : TreeState K :=
+def TreeState.init (levelCount : Nat := 7) (blobTh : Option Nat := none) : TreeState K :=
   { hist := [{ active := 0, sealed := [], version := Version.empty 0 levelCount, seqno := 0 }],
-    mems := [{ id := 0, entries := [] }], seqCtr := 0, visible := 0, levelCount := levelCount }
+    mems := [{ id := 0, entries := [] }], seqCtr := 0, visible := 0, levelCount := levelCount, blobTh := blobTh }
+
+/-- key-value separation at write-out time (`BlobTree::flush_to_tables`, blob ingestion, filter `handle_write`):
+    a value of at least `threshold` bytes is stored as an indirection. At this level an indirection carries the
+    bytes it resolves to; that it really does is what the correspondence check validates on every table entry. -/
+def separate (th : Option Nat) (e : Entry K) : Entry K :=
+  match th with
+  | some n => if e.vt = .value ∧ n ≤ e.val.length then { e with vt := .indir } else e
+  | none => e
 
 def TreeState.mem (t : TreeState K) (id : Nat) : List (Entry K) :=
   match t.mems.find? (fun m => m.id == id) with
@@ -106,13 +115,15 @@ def TreeState.flushStream (t : TreeState K) (sv : SuperVersion K) (wm : Nat) : L
   cstream wm false noFilter (mergeAll (sv.sealed.map t.mem))
 
 /-- `AbstractTree::flush` (sealed memtables → one new L0 run), with observed output cuts -/
-def TreeState.flushSealed (t : TreeState K) (wm : Nat) (cuts : List (Nat × Nat)) : Option (TreeState K) :=
+def TreeState.flushSealed (t : TreeState K) (wm : Nat) (cuts : List (Nat × Nat)) (sep : Bool := true) :
+    Option (TreeState K) :=
   match t.latest? with
   | none => none
   | some sv =>
     if sv.sealed.isEmpty then (if cuts.isEmpty then some t else none)
     else
-      match cutTables cuts (t.flushStream sv wm).1 0 with
+      -- NOTE: blob ingestion flushes through the index tree's own `flush` (no key-value separation): `sep = false`
+      match cutTables cuts ((t.flushStream sv wm).1.map (separate (if sep then t.blobTh else none))) 0 with
       | none => none
       | some tables =>
         some (t.install { sv with version := sv.version.withNewL0Run tables, sealed := [] } wm)
@@ -153,7 +164,7 @@ def TreeState.ingestCommit (t : TreeState K) (items : List (Entry K)) (cuts : Li
   | none => none
   | some sv =>
     let g := t.seqCtr
-    match cutTables cuts (items.map (fun (e : Entry K) => { e with seqno := e.seqno + g })) g with
+    match cutTables cuts (items.map (fun (e : Entry K) => separate t.blobTh { e with seqno := e.seqno + g })) g with
     | none => none
     | some tables => some (t.install { sv with version := sv.version.withNewL0Run tables } 0)
 
